@@ -40,6 +40,9 @@ chk("C07", E1, "exploration",
 chk("C08", E1, "exploration",
     "PS DKG through the real stack under seeded schedules (2<=t<=n<=4, thorough 5; message length 1..4, thorough 6; loud/silent), then the documented flow with real crypto: Prover.Blind, TPS.Sign on every signer, UnBlind per signer, proof of knowledge for every subset of size >= t, Verifier.Verify, for 4 message vectors (empty / equal / 1-byte / long / random entries); public material compared byte for byte. The schedule dimension concerns the DKG; the rest is a seeded input sweep and is reported as such.",
     "deterministic simulation of the DKG + seeded input sweep of the documented PS flow (exhaustive over signer subsets)", "DESIGN.md §4 C08")
+chk("C10", E1, "exploration",
+    "Sessions (scripted/BLS/PS backends, loud and silent, KeyGen and Sign, n=2..4) receive 20..160 garbage messages each, injected at seeded points in the states idle / synchronising / protocol running / finished: structure-aware mutations of real in-flight messages (every truncation length, extension, empty, nil, message type, 7 topic shapes incl. nil and < 8 bytes, acknowledgement fields with digest lengths 0..64, first/second payload byte sweeps, bit flips, synchroniser messages of every length around the tag with odd tails, oversized views, floods beyond the buffer's per-sender limit) and raw random bytes, from Byzantine participants, a configured outsider and an unknown id. Oracle: no panic anywhere in the process, every HandleMessage returns, calls return by their deadline, and when the garbage does not belong to the session (other topics, non-participants) the session completes. 15% of the runs also push ~600 DER-structure-aware and byte-level mutants of valid public parameters, signatures, blinded requests, proofs and partial signatures through bls.Verifier, ps.TPS.Sign, ps.Verifier, ps.Prover (input mutation, labelled as such). The connection handshake is covered by C16/C17's engine.",
+    "deterministic simulation with garbage injection in every session state + structure-aware input mutation of client-facing entry points", "DESIGN.md §4 C10")
 chk("C11", E1, "fault_enumeration",
     "Crash points and single lost messages are enumerated on the canonical schedule for 8 base sessions (scripted, BLS and PS key generation, scripted signing; loud and silent): for every peer P and every k, P goes silent after its k-th outgoing message (k=0: never shows up), and every single message is withheld in turn; further runs draw crash point / withheld message / cancellation step / unusable stored data with a never-expiring context under seeded schedules (n=2..4, thorough ..5). Oracle: every live call returns (error or success) no later than its deadline / cancellation + 1 s of simulated time, no panic anywhere in the process for a further 5 simulated minutes (background goroutines included; a dying worker process is captured and replayed).",
     "deterministic simulation with enumerated crash points / withheld messages + seeded fault injection; return-by-deadline oracle on the simulated clock", "DESIGN.md §4 C11")
